@@ -47,6 +47,16 @@ struct CondFn {
 };
 
 // the CbFn inside a stored callable: plain, or wrapped by CounterRemover / ConditionalRemover
+// the same condition with a second, parameterless call operator (a functor usable as a condition for several
+// prototypes): the trigger's arguments are there, so the overload that takes them is the one to evaluate
+static long g_condWithoutArgs = 0;
+struct CondBoth {
+	long m, r;
+	std::shared_ptr<long> evals;
+	bool operator()(int arg) const { ++*evals; return m > 0 && (arg % m) == r; }
+	bool operator()() const { ++g_condWithoutArgs; return false; }
+};
+
 static CbFn * fnOf(CL::Callback & cb);
 
 struct World {
@@ -122,6 +132,7 @@ struct World {
 			CbFn fn{c.n(2), id, l};
 			CL::Handle h;
 			if(op == "counted") h = eventpp::counterRemover(*lists[l]).append(fn, (int)c.n(3));
+			else if(id % 2) h = eventpp::conditionalRemover(*lists[l]).append(fn, CondBoth{c.n(3), c.n(4), std::make_shared<long>(0)});
 			else h = eventpp::conditionalRemover(*lists[l]).append(fn, CondFn{c.n(3), c.n(4), std::make_shared<long>(0)});
 			reg(h);
 			res("h" + std::to_string(id));
@@ -200,7 +211,9 @@ struct World {
 			reg(h);
 			res("h" + std::to_string(id));
 		}
-		else if(op == "rremove") { if(!has) { res("skip"); return; } res(rems[r]->remove(handleOf(c.n(2))) ? "true" : "false"); }
+		else if(op == "rremove" || op == "rremoveeq") { if(!has) { res("skip"); return; } res(rems[r]->remove(handleOf(c.n(2))) ? "true" : "false"); }
+		// (a callback list has no events: removal "for another event" exists for dispatcher / queue targets only, seq_rem.cpp)
+		else if(op == "rremoveother") { res(has ? "false" : "skip"); }
 		else if(op == "rremoveheld") {
 			// the user holds the node (handle.lock() is public API), detaches the listener directly, then asks the
 			// remover: "reports whether it was attached" must be false although the remover still tracked the handle
@@ -286,6 +299,8 @@ static CbFn * fnOf(CL::Callback & cb) {
 	if(CW * w = cb.target<CW>()) return &w->data->listener;
 	using DW = eventpp::ConditionalRemover<CL>::ItemByCondition<CbFn, CondFn>;
 	if(DW * w = cb.target<DW>()) return &w->data->listener;
+	using DW2 = eventpp::ConditionalRemover<CL>::ItemByCondition<CbFn, CondBoth>;
+	if(DW2 * w = cb.target<DW2>()) return &w->data->listener;
 	return nullptr;
 }
 
